@@ -158,6 +158,8 @@ func hopErr(cls, what string) *smtp.SMTPError {
 		return &smtp.SMTPError{Code: 550, EnhancedCode: smtp.NoEnhancedCode, Message: "next hop: no such user here, " + what}
 	case "T":
 		return &smtp.SMTPError{Code: 451, EnhancedCode: smtp.EnhancedCode{4, 3, 0}, Message: "next hop: temporary failure at " + what}
+	case "T421": // "service not available, closing transmission channel" (the server keeps the connection open here)
+		return &smtp.SMTPError{Code: 421, EnhancedCode: smtp.EnhancedCode{4, 4, 2}, Message: "next hop: shutting down, " + what}
 	case "P":
 		return &smtp.SMTPError{Code: 550, EnhancedCode: smtp.EnhancedCode{5, 1, 1}, Message: "next hop: permanent failure at " + what}
 	}
